@@ -12,10 +12,10 @@ pub fn prop() -> Prop {
     Prop {
         id: "C01",
         level: "model_checking",
-        rule: "streams of <=2 values over the 80-value universe U1 and <=3 (thorough <=6) over a 12-value core, every legal separator (whitespace menu or touching; 5 kinds for triples, 3 for 4- and 5-streams, 2 for 6-streams), spelling deviations k=0,1 (thorough <=3, and 4 on the core) per value from the whitespace/escape/number menus; size ladders to 8193 bytes/members/values; a decimal grid of 36 mantissas (thorough ~1150: every 1..3-digit mantissa and the neighbours of 2^24..2^64 and 10^15..10^19) x every exponent -345..310 x 2 spellings; non-trivial = >=2 values, or a non-default spelling, or touching tokens; cases are distinct by construction",
+        rule: "streams of <=2 values over the 80-value universe U1 and <=3 (thorough <=6) over a 12-value core, every legal separator (whitespace menu or touching; 5 kinds for triples, 3 for 4- and 5-streams, 2 for 6-streams), spelling deviations k=0,1 (thorough <=3, and 4 on the core) per value from the whitespace/escape/number menus; size ladders to 8193 bytes/members/values; a decimal grid of 36 mantissas (thorough ~1150: every 1..3-digit mantissa and the neighbours of 2^24..2^64 and 10^15..10^19) x every exponent -345..310 x 2 spellings; a position grid: 13 atoms (all types, exponent forms, a 20-digit integer, a string spelled like the start of a literal) at every position (only/first/last/middle element or member) of every nesting shape of depth <=3 (thorough 4), members named by each of 10 names (empty, literal-like, number-like, with blank, quote, line feed, non-ASCII), compact and indented, and as `value atom value`; non-trivial = >=2 values, or a non-default spelling, or touching tokens; cases are distinct by construction",
         explanation: "bounded-exhaustive enumeration of conforming serialisations; jawk (no options) is run on each and stdout is read back with an independent strict RFC 8259 reader and compared value by value with the reference parse of the input",
         assumptions,
-        guards: vec!["decimal-grid", "size-thresholds", "touching-tokens", "upper-case-exponent", "escape-variant", "multi-value", "depth-64"],
+        guards: vec!["decimal-grid", "size-thresholds", "touching-tokens", "upper-case-exponent", "escape-variant", "multi-value", "depth-64", "position-grid"],
         budget_s: (100, 1500),
         single_worker: false,
         run,
@@ -518,4 +518,41 @@ fn run(ctx: &mut Ctx) {
         flush(ctx, &mut batch);
     }
     ctx.level_done(&format!("G:decimal-grid({n_mantissas}-mantissas-x-every-exponent--345..310-x-2-spellings)"));
+
+    // level H: the position grid. An atom of every kind at every position (only / first / last / middle element or
+    // member) of every nesting shape of depth <= 3 (thorough 4), the members named by each of ten names; each value in a
+    // compact and in an indented spelling, and as the stream `value atom value` (the same value coming back).
+    let gdepth = ctx.tier.pick(3, 4);
+    let atoms = spell::grid_atoms();
+    let names = spell::grid_names();
+    let mut shapes: Vec<Vec<usize>> = Vec::new();
+    for d in 1..=gdepth {
+        crate::explore::seqs_exact(spell::GRID_WRAPPERS, d, |s| shapes.push(s.to_vec()));
+    }
+    for (si, shape) in shapes.iter().enumerate() {
+        if !ctx.mine() {
+            continue;
+        }
+        ctx.guard("position-grid");
+        for (ai, atom) in atoms.iter().enumerate() {
+            // every name for shapes of depth <= 2 (thorough 3), one name per (shape, atom) in rotation beyond
+            let all_names = shape.len() <= gdepth - 1;
+            for (ni, name) in names.iter().enumerate() {
+                if !all_names && ni != (si + ai) % names.len() {
+                    continue;
+                }
+                let v = spell::grid_value(shape, name, atom);
+                let t = template(&v);
+                let compact = t.default_text();
+                let atxt = template(atom).default_text();
+                check(ctx, format!("{compact} {atxt} {compact}"), &[&v, atom, &v], true);
+                check(ctx, t.render_ws("\n  "), &[&v], true);
+            }
+        }
+        if ctx.time_up() {
+            ctx.cap("level H");
+            return;
+        }
+    }
+    ctx.level_done(&format!("H:position-grid(depth<={gdepth},8-wrappers,{}-atoms,{}-names)", atoms.len(), names.len()));
 }
